@@ -28,6 +28,10 @@ type clause struct {
 }
 
 type loopSpec struct {
+	splitType, splitExpr string
+	splitAlts []string
+	splitFn   string
+	splitSSA  *ssa.Function
 	panicPoint bool
 	invs     []clause
 	decr     string
@@ -65,11 +69,13 @@ type Contract struct {
 	Properties []string
 	Trusted    bool
 	Inline     []string
+	Uses       []string
 	Covers     []clause
 	Cases      []caseSpec
 	Shared     bool
 	SplitRet   bool
 	SplitPaths bool
+	SplitPreds bool
 	Extra      bool
 
 	obj     *types.Func
@@ -194,6 +200,29 @@ func parseContractFile(path string, pkgPath string) ([]*Contract, []string, erro
 			case "invariant":
 				ls.invs = append(ls.invs, clause{label: invLabel, expr: parts[2], line: i + 1})
 				lastClause = &ls.invs[len(ls.invs)-1]
+			case "split":
+				// loop N split <type> <expr>: a, b, lo..hi, other  -- one run per value of expr at the loop head
+				ty, restx, ok1 := strings.Cut(strings.TrimSpace(parts[2]), " ")
+				ex, alts, ok2 := strings.Cut(restx, ":")
+				if !ok1 || !ok2 {
+					return nil, nil, fmt.Errorf("%s:%d: loop split needs '<type> <expr>: alts'", path, i+1)
+				}
+				ls.splitType, ls.splitExpr = ty, strings.TrimSpace(ex)
+				cs := caseSpec{param: fmt.Sprintf("@loop%d", n)}
+				for _, a := range strings.Split(alts, ",") {
+					if a = strings.TrimSpace(a); a != "" {
+						var lo, hi int
+						if k, _ := fmt.Sscanf(a, "%d..%d", &lo, &hi); k == 2 && hi >= lo && hi-lo < 512 {
+							for v := lo; v <= hi; v++ {
+								cs.alts = append(cs.alts, fmt.Sprint(v))
+							}
+							continue
+						}
+						cs.alts = append(cs.alts, a)
+					}
+				}
+				ls.splitAlts = cs.alts
+				cur.Cases = append(cur.Cases, cs)
 			case "panicpoint":
 				// the panic predicate is proved once at this loop head (and then known in the body)
 				ls.panicPoint = true
@@ -227,6 +256,10 @@ func parseContractFile(path string, pkgPath string) ([]*Contract, []string, erro
 			if strings.Contains(rest, "path") {
 				cur.SplitPaths = true
 			}
+			if strings.Contains(rest, "pred") {
+				// additionally one run per incoming edge of each return block
+				cur.SplitPreds = true
+			}
 			cur.SplitRet = true
 		case "panics":
 			cur.Panics = rest
@@ -234,6 +267,11 @@ func parseContractFile(path string, pkgPath string) ([]*Contract, []string, erro
 			cur.Properties = append(cur.Properties, strings.Fields(rest)...)
 		case "trusted":
 			cur.Trusted = true
+		case "uses":
+			// panic mode: calls of these functions use their ordinary (safety-verified) contracts
+			for _, m := range strings.Split(rest, ",") {
+				cur.Uses = append(cur.Uses, strings.TrimSpace(m))
+			}
 		case "inline":
 			// calls of these functions inside this contract/lemma execute the body, not the contract
 			for _, m := range strings.Split(rest, ",") {
@@ -913,6 +951,13 @@ func genContract(g *genCtx, c *Contract, out *strings.Builder) error {
 					return err
 				}
 				ls.decrFn = fn
+			}
+			if ls.splitExpr != "" {
+				fn, err := gen("split", 0, ls.splitExpr, ls.splitType)
+				if err != nil {
+					return err
+				}
+				ls.splitFn = fn
 			}
 		}
 	}
